@@ -9,7 +9,6 @@ import (
 	"github.com/biogo/biogo/feat"
 	"github.com/biogo/biogo/seq"
 	"github.com/biogo/biogo/seq/linear"
-	"github.com/biogo/biogo/util"
 
 	"errors"
 	"fmt"
@@ -233,7 +232,7 @@ func (s *QSeq) AppendEach(a [][]alphabet.QLetter) error {
 	if len(a) != s.Rows() {
 		return fmt.Errorf("alignment: number of sequences does not match Rows(): %d != %d.", len(a), s.Rows())
 	}
-	max := util.MinInt
+	max := 0
 	for _, r := range a {
 		if l := len(r); l > max {
 			max = l
